@@ -1,5 +1,8 @@
 """C19 — protocol forecasting offers exactly the grammar's continuations.
 
+0. translator: harness/translate_proto.py reads the two code shapes the model of the visitor is written for (how
+   `visitRepetitionType` computes `rep_max`; the re-entry guard of `PathFinder.onNonTerminalNodeVisit`) from the
+   source -> lean/Generated/Proto.lean, obligation `C19_source_configuration`
 1. obligations: Props/C19.lean (lake build, axiom audit)
 2. per generated protocol grammar (alternatives, options, bounded/unbounded repetitions, nesting, right
    recursion, 2-3 parties): the model driver (drv_proto) checks the theorems' hypotheses with their
@@ -17,7 +20,8 @@
    by the driver), forecasting on the real sliced grammar, and "the visible part of a prefix / interaction is
    a prefix / interaction of the sliced spec" with the verified forecaster (an independent observation of what
    the theorem states);
-5. fixed probes: computed repetitions at message level, the open-repetition cap, the empty history.
+5. fixed probes: computed repetitions at message level, an open-ended repetition beyond the generator's
+   repetition cap (regression probe of F43, fixed by 07eb1fdf: a capped answer is a violation), the empty history.
 
 Attribution of what predict() merely relays from the parser (so that parser defects - C05/C06 domain - do not
 count as forecasting defects, and forecasting defects are not hidden behind them):
@@ -27,8 +31,11 @@ count as forecasting defects, and forecasting defects are not hidden behind them
     asked directly with the same reduced grammar and the same word of message types, rejects the history
     (COMPLETE mode) / yields no partial tree (INCOMPLETE mode).
 Open findings proposed by this builder are read from proposed_findings/C19.json when that file exists (same
-semantics as known_findings.json).  The model follows the code as repaired by ebdb490d / 8757f904 / fc0f6663
-(forecaster), ed4e9a62 / e74d4443 (slice_parties) and b48dd899 (`{n,}` parsed without an upper bound).
+semantics as known_findings.json).  The model follows the code as repaired by ebdb490d / 8757f904 / fc0f6663 /
+58f3e8e8 / 07eb1fdf (forecaster), ed4e9a62 / e74d4443 (slice_parties) and b48dd899 (`{n,}` parsed without an upper
+bound).  Since 07eb1fdf nothing in the forecast depends on the generator's repetition cap: some generated grammars
+are still run with `MAX_REPETITIONS = 3` so that a forecaster that reads an open bound through the cap again is
+caught within the enumeration depth (a violation: F43 is fixed, its signature suppresses nothing).
 """
 from __future__ import annotations
 
@@ -52,10 +59,15 @@ TRUSTED = [
     "Lean 4.33.0 kernel; axioms ⊆ {propext, Classical.choice, Quot.sound} (audited per run)",
     "hand-written model lean/Model/Forecast.lean: message-level reading of the grammar IR (GM), the verified "
     "forecaster (derivatives + emptiness), the model of the code (positions + walkPos/walkNew), sliceG (line by "
-    "line after slice_parties / PacketTruncator, node ids included); tied to /repo by this run's correspondence "
-    "(generator-bounded): real slice_parties == sliceG rule by rule, real predict == codeNexts == nexts per prefix",
-    "the prefix parse is specified (all partial derivations of the history), not modelled: that the Earley "
-    "parser returns exactly these is checked only through the compared forecasts (E3 models the parser)",
+    "line after slice_parties / PacketTruncator, node ids included); tied to /repo by harness/translate_proto.py "
+    "(shape of the rep_max computation and of the re-entry guard, C19_source_configuration) and by this run's "
+    "correspondence (generator-bounded): real slice_parties == sliceG rule by rule, real predict == codeNexts == "
+    "nexts per prefix",
+    "the prefix parse is specified (`positions`), not modelled: C19_code_forecast_of_positions reduces "
+    "`codeNexts = continuations` to PositionsExact (the spines handed to the visitor are sound and complete for "
+    "the message-level partial derivations of the history); that the Earley parser's prefix mode meets it is "
+    "checked only through the compared forecasts (E3 models the parser; its prefix-mode soundness theorem is "
+    "weaker than PositionsExact.sound and completeness is not proved)",
     "harness/impl/grammar_io.py grammar_to_json (real front end -> IR JSON), harness/impl/proto_real.py",
     "rank candidate computed by an unverified helper in Driver/Proto.lean, accepted only through the verified "
     "check rankOk",
@@ -230,14 +242,11 @@ def explore(grammar, cases: list[dict], max_trees: int = 2, check_complete_trees
         h = tuple(tm(j) for j in case["h"])
         model_next = mset(case["nexts"])
         model_code = mset(case["code"])
-        model_nocap = mset(case["code_nocap"])
         ts = trees.get(h, [])
         if not ts:
             out["unbuilt"] += 1      # a missing option upstream was already reported there
             continue
         out["cases"] += 1
-        if mset(case.get("nexts_cap", case["nexts"])) != model_next:
-            out["limit_binding"] = out.get("limit_binding", 0) + 1   # only the documented repetition limit excludes an option here
         for t in ts:
             if out["timeouts"] >= 2:
                 break
@@ -281,7 +290,7 @@ def explore(grammar, cases: list[dict], max_trees: int = 2, check_complete_trees
                 out["predicts_type_ambiguous"] = out.get("predicts_type_ambiguous", 0) + 1
             real = sorted(opts.keys(), key=lambda x: (x[0], x[1] or "", x[2]))
             rec = {"h": [jm(m) for m in h], "real": [jm(m) for m in real], "nexts": [jm(m) for m in model_next],
-                   "code": [jm(m) for m in model_code], "code_nocap": [jm(m) for m in model_nocap],
+                   "code": [jm(m) for m in model_code],
                    "real_complete": real_complete, "complete": case["complete"],
                    "code_complete": case["code_complete"], "positions": case["positions"],
                    "type_ambiguous": amb,
@@ -545,7 +554,8 @@ def run_grammar(job: dict) -> dict:
         if job.get("cap") is not None:
             nodes.MAX_REPETITIONS = job["cap"]
         cap = nodes.MAX_REPETITIONS
-        ans = driver_ask("drv_proto", [{"op": "enum", "grammar": gj, "start": "<start>", "cap": cap,
+        res["cap_in_force"] = cap
+        ans = driver_ask("drv_proto", [{"op": "enum", "grammar": gj, "start": "<start>",
                                         "depth": job["depth"], "limit": job["limit"]}])[0]
         res["certs"] = ans["certs"]
         res["nullable_head_in_open_rep"] = nullable_head_in_open_rep(gj)
@@ -587,7 +597,7 @@ def run_grammar(job: dict) -> dict:
                     return m[0] in keep
                 return m[1] is None or m[0] in keep or m[1] in keep
             if has_start:
-                sans = driver_ask("drv_proto", [{"op": "enum", "grammar": sgj, "start": "<start>", "cap": cap,
+                sans = driver_ask("drv_proto", [{"op": "enum", "grammar": sgj, "start": "<start>",
                                                  "depth": job["depth"], "limit": job["limit"]}])[0]
                 sres["certs"] = sans["certs"]
                 if sans["certs"]["rank_ok"] and sans["certs"]["productive"] and sans["certs"]["msg_only"]:
@@ -601,7 +611,7 @@ def run_grammar(job: dict) -> dict:
                         proj[p] = proj.get(p, False) or c["complete"]
                     hs = sorted(proj.keys())
                     pans = driver_ask("drv_proto", [{"op": "forecast", "grammar": sgj, "start": "<start>",
-                                                     "cap": cap, "histories": [[jm(m) for m in p] for p in hs]}])[0]
+                                                     "histories": [[jm(m) for m in p] for p in hs]}])[0]
                     bad = []
                     for p, c in zip(hs, pans["cases"]):
                         if not c["prefix"] or (proj[p] and not c["complete"]):
@@ -772,8 +782,9 @@ def probe_computed_repetition() -> dict:
 
 
 def probe_open_cap() -> dict:
-    """`<a>* <c>`: after MAX_REPETITIONS iterations the grammar (and the parser) still allow `<a>`; the visitor
-    implements the capped language (`C19_open_bound_is_cap`): offered iff k < cap"""
+    """`<a>* <c>`: after MAX_REPETITIONS iterations (and one more) the grammar, the parser and - since 07eb1fdf -
+    the visitor still allow `<a>` (`C19_rep_bound_code`; the old rule: `C19_OLD_RULE_open_bound_is_cap`).  Regression
+    probe of the fixed finding F43: `<a>` not offered is a violation."""
     from harness.gen.protocols import content_rules, party_classes
     from harness.impl.grammar_io import parse_spec
     from harness.impl import proto_real as pr
@@ -812,7 +823,7 @@ def classify(rec: dict, nullable_head: bool = False) -> tuple[Optional[str], Opt
 
     `real` is compared with the verified forecaster `nexts` (the property) and with the model of the code
     `code` (correspondence).  A difference real/nexts that the model of the code reproduces is attributed to
-    the modelled cause: the repetition cap (code_nocap == nexts).  Two causes sit outside the Lean model of the code and are recognised here:
+    the modelled cause.  Two causes sit outside the Lean model of the code and are recognised here:
     options that differ in the recipient only are merged by `ForecastingNonTerminals` (keyed by symbol), and
     the type-level prefix parse does not return every derivation of a type-ambiguous history."""
     if rec.get("kind") == "parser-unbounded":
@@ -835,7 +846,6 @@ def classify(rec: dict, nullable_head: bool = False) -> tuple[Optional[str], Opt
     if rec.get("kind") in ("complete-tree-invalid", "complete-tree-history"):
         return SIG_COMPLETE, f"complete tree for {rec['h']} rejected ({rec['kind']}): {rec.get('bad', rec.get('got'))}", False
     real, nx, code = rec["real"], rec["nexts"], rec["code"]
-    nocap = rec.get("code_nocap", code)
 
     def by_sender_type(ms):
         return sorted({(m[0], m[2]) for m in ms})
@@ -864,10 +874,8 @@ def classify(rec: dict, nullable_head: bool = False) -> tuple[Optional[str], Opt
             sig = SIG_AMBIG
         elif extra:
             sig = SIG_GENERIC
-        elif merged or (real == code and False):
+        elif merged:
             sig = SIG_MERGE
-        elif real == code and nocap == nx:
-            sig = SIG_CAP          # an open-ended repetition stops being offered after MAX_REPETITIONS iterations
         elif all(any(r[0] == m[0] and r[2] == m[2] for r in real) for m in missing) and code == nx:
             sig = SIG_MERGE
         else:
@@ -945,6 +953,10 @@ def main(tier: str) -> int:
     load_known(run)
     use_repo()
     warnings.simplefilter("ignore")
+    from harness import translate_proto
+    tr = translate_proto.regenerate()      # -> lean/Generated/Proto.lean (obligation C19_source_configuration)
+    run.coverage["translator"] = tr
+    run.count("translator_refusals", len(tr["refusals"]))
     lean = lean_check("Props.C19", ["drv_proto", "drv_ir"])
     jobs = make_jobs(run, tier)
     workers = min(16, os.cpu_count() or 4)
@@ -999,9 +1011,10 @@ def main(tier: str) -> int:
         raise MachineryError("cap probe crashed in the harness: " + pk["crash"] + pk.get("tb", ""))
     run.count("probe_cap_ok" if pk["ok"] else "probe_cap_fails")
     if not pk["ok"]:
+        run.count("violations:" + SIG_CAP)
         report_once(SIG_CAP,
                    f"`<m0>* <m1>`: after {pk['iterations']} iterations (MAX_REPETITIONS={pk['cap']}) `<m0>` is no longer "
-                   f"offered although it can follow; offered: {pk['offered']}",
+                   f"offered although it can follow (F43, fixed by 07eb1fdf, is back); offered: {pk['offered']}",
                    {"kind": "probe", "probe": "cap", "spec": pk["spec"]})
 
     # ---- grammars
@@ -1023,7 +1036,6 @@ def main(tier: str) -> int:
         run.count("call_order_probe_calls(one forecaster vs a fresh one)", ex.get("order_probe_calls", 0))
         run.count("predict_calls_on_type_ambiguous_histories", ex.get("predicts_type_ambiguous", 0))
         run.count("mounts", ex["mounts"])
-        run.count("states_where_the_repetition_limit_excludes_an_option", ex.get("limit_binding", 0))
         run.count("max_partial_trees_of_one_prefix_parse", 0)
         run.counters["max_partial_trees_of_one_prefix_parse"] = max(
             run.counters.get("max_partial_trees_of_one_prefix_parse", 0), ex.get("max_trees", 0))
